@@ -397,5 +397,21 @@ func (g *genCtx) psStmt(depth int, inLoop, inBrk bool) *PSStmt {
 		g.psCase = false
 		ps.Cases = append(ps.Cases, c)
 	}
+	// sometimes every case starts with the same label, each with a modifier of its own: only the
+	// selected case contributes, so the name is still defined once - with the scope written in THAT case
+	if !g.cfg.NoLabels && g.nLabel < g.cfg.MaxLabels && g.psDepth == 1 && rapid.IntRange(0, 5).Draw(t, "sharedlabel") == 0 {
+		g.nLabel++
+		name := fmt.Sprintf("%sLbl%c", g.prefix, 'A'+g.nLabel-1)
+		g.labels = append(g.labels, name)
+		for _, c := range ps.Cases {
+			st := sLabel(name)
+			st.Label.Scope = rapid.SampledFrom([]string{"", "global", "local"}).Draw(t, "sharedlabelscope")
+			if c.Brace {
+				c.Body.Stmts = append([]*Stmt{st}, c.Body.Stmts...)
+			} else {
+				c.Body.Stmts = []*Stmt{st}
+			}
+		}
+	}
 	return ps
 }
